@@ -22,22 +22,21 @@ CanonHi(deg) == IF deg = 1 THEN 0 ELSE 2
 CanonX(rel, deg) == CASE rel = "below" -> -1 [] rel = "lo" -> 0 [] rel = "in" -> 1 [] rel = "hi" -> 2
                       [] rel = "above" -> CanonHi(deg) + 1 [] rel = "lohi" -> 0
 B2I(b) == IF b THEN 1 ELSE 0
-TBox == /\ IsEvent("box")
-        /\ LET ev == Log[l]
-               n == Len(ev.rel)
-               x == [i \in 1..n |-> CanonX(ev.rel[i], ev.deg[i])]
-               lo == [i \in 1..n |-> 0]
-               hi == [i \in 1..n |-> CanonHi(ev.deg[i])]
-               y == Clamp(x, lo, hi)
-           IN /\ \A i \in 1..n : ev.rel[i] \in {"below", "lo", "in", "hi", "above", "lohi"}
-              /\ \A i \in 1..n : ev.eqlo[i] = B2I(y[i] = lo[i])
-              /\ \A i \in 1..n : ev.eqhi[i] = B2I(y[i] = hi[i])
-              /\ \A i \in 1..n : ev.eqx[i] = B2I(y[i] = x[i])
-              /\ ev.is_default = ~InBox(x, lo, hi)
-              /\ ev.queries = B2I(InBox(x, lo, hi))
-              /\ ev.queried_at_x = TRUE
+Canon(ev) == LET n == Len(ev.rel) IN
+   [x |-> [i \in 1..n |-> CanonX(ev.rel[i], ev.deg[i])], lo |-> [i \in 1..n |-> 0], hi |-> [i \in 1..n |-> CanonHi(ev.deg[i])]]
+TClampBox == /\ IsEvent("clampbox")
+             /\ LET ev == Log[l]  n == Len(ev.rel)  k == Canon(ev)  y == Clamp(k.x, k.lo, k.hi) IN
+                  /\ \A i \in 1..n : ev.rel[i] \in {"below", "lo", "in", "hi", "above", "lohi"}
+                  /\ \A i \in 1..n : ev.eqlo[i] = B2I(y[i] = k.lo[i])
+                  /\ \A i \in 1..n : ev.eqhi[i] = B2I(y[i] = k.hi[i])
+                  /\ \A i \in 1..n : ev.eqx[i] = B2I(y[i] = k.x[i])
+TBackupBox == /\ IsEvent("backupbox")
+              /\ LET ev == Log[l]  k == Canon(ev) IN
+                   /\ ev.is_default = ~InBox(k.x, k.lo, k.hi)
+                   /\ ev.queries = B2I(InBox(k.x, k.lo, k.hi))
+                   /\ ev.queried_at_x = TRUE
 
-TNext == TNN \/ TBox
+TNext == TNN \/ TClampBox \/ TBackupBox
 TSpec == TInit /\ [][TNext]_tvars
 Accepted == IF TLCGet("stats").diameter - 1 = Len(Log)
             THEN TRUE
